@@ -78,6 +78,11 @@ def main(tier, replay=None):
 
     # ---- 3. random histories over collision classes, larger sizes ----
     nexec = 48 if quick else 400
+    BIG = sorted({-2**63, -2**63 + 1, -2**62, -3 * 10**9, -2**32 - 7, -2**32, -2**31 - 1, -2**31, -7, 0, 7, 2**31 - 1, 2**31, 2**32, 2**32 + 7,
+                  3 * 10**9, 1700000000123, 1700000000123 + 2**33, 2**40, 2**62, 2**63 - 2, 2**63 - 1, 7 - 2**32, 7 + 2**33})
+    camp.run(mapgen.header("Int", "Int", BIG, [7, 8, 9]),             # key magnitudes beyond 32 bits, multiples of 2^32 apart
+             [mapgen.random_history(rng, "Table", len(BIG), 3, rng.choice([40, 120, 300]) if quick else rng.choice([100, 400, 1500]),
+                                    init_pairs=rng.choice([0, 0, 3])) for _ in range(nexec // 3)], "random/Int-magnitudes", variant="IntBig")
     for name, vtype in (("Int", "Int"), ("String", "Int"), ("Probe", "Probe"), ("Int", "Probe"), ("Int", "Odd12"), ("Odd12", "Int")):
         # (the last three: key and value types of different sizes - slot layout, copy and assign must use each one's own size)
         nk = rng.choice([12, 16, 24])
